@@ -7,6 +7,7 @@ mod big;
 mod forms;
 mod frontier;
 mod model;
+mod oracle;
 mod pairs;
 mod runner;
 mod spec;
@@ -68,6 +69,15 @@ fn main() {
     if args.len() < 3 {
         eprintln!("usage: fpmc <ID> quick|thorough | fpmc replay <path>");
         std::process::exit(2);
+    }
+    if args[1] == "oracle-dump" {
+        let n = oracle::dump(&args[2]).expect("write oracle dump");
+        println!("oracle records written: {}", n);
+        return;
+    }
+    if args[1] == "c06-guard" {
+        c06::guard_main(if args[2] == "thorough" { Tier::Thorough } else { Tier::Quick });
+        return;
     }
     if args[1] == "c19-exec" {
         c19::executor_main();
